@@ -79,8 +79,12 @@ def rule_dispatcher_complete(ctx, rid="R5.1"):
                 if l in ("exc", "close"):
                     continue
                 todo.append(x)
-        if ynodes and leak is None:
-            r.ok(site(disp, inner.ast), "every element of the keyword function's result reaches `yield %s`" % lv)
+        all_y = [n for n in body if n.kind == "yield" and inner in n.loops]
+        if ynodes and leak is None and len(all_y) > 1:
+            r.fail("%s|error-yielded-twice" % disp.qual, site(disp, all_y[1].ast),
+                   "the error loop contains %d yields: an error can be reported more than once" % len(all_y))
+        elif ynodes and leak is None:
+            r.ok(site(disp, inner.ast), "every element of the keyword function's result reaches `yield %s`, exactly once" % lv)
         else:
             r.fail("%s|error-dropped" % disp.qual, site(disp, inner.ast),
                    "an error produced by a keyword function can be dropped before it is yielded (path reaches %s without a yield)" % (
